@@ -87,7 +87,7 @@ def unknownInputFields (dfn : Definition) : Children → List RErr
 
 def enumPfx : Bytes := str "Did you mean the enum value"
 
-def valuesOfCorrectTypeStep (_ : Schema) (_ : QueryDoc) (e : Event) : Except Bytes (List RErr) :=
+def valuesOfCorrectTypeStep (_ : SV) (_ : QueryDoc) (e : Event) : Except Bytes (List RErr) :=
   match e.p with
   | .value v (some expected) (some dfn) =>
     let e0 : List RErr :=
